@@ -7,14 +7,49 @@
     c18 fmt <hex format> <bits> -> <hex text>               | unmodelled
     c18 bser k0 n secs        -> rolling hash over days k0..k0+n-1 (0 = 1900-01-01) at `secs`
     c18 bsec y m d s0 n       -> rolling hash over seconds s0..s0+n-1 of one day
+    c18 syn <hex format>      -> 1 <number of tokens> | 0     is the code (read as a token list: cut at `-` `,`
+                                 blank, each piece looked up by its text in the vocabulary of the clock mode)
+                                 a member of the syntactic class `Umya.Thm.C18.SimpleSyntax`
 
   Floats travel as their IEEE-754 bit pattern (decimal `u64`): Lean's `Float.toString` is not
   shortest-round-trip, and bit patterns are a strictly finer comparison than decimal text.
 -/
 import Umya.Driver.Proto
 import Umya.Model.Date
+import Umya.Lemmas.DateSyntax
 namespace Umya.Driver.C18
 open Umya.Date Umya.Proto Umya.Spec.Calendar
+open Umya.Lemmas.DateDisplay Umya.Lemmas.DateSyntax
+
+/-- the pieces of a code between the characters `-` `,` blank, and those characters -/
+def pieces (f : List Char) : List (List Char) × List Char :=
+  f.foldr (fun c acc =>
+    if isMajor c then ([] :: acc.1, c :: acc.2)
+    else match acc.1 with
+      | [] => ([[c]], acc.2)
+      | p :: ps => ((c :: p) :: ps, acc.2)) ([[]], [])
+
+/-- the token list a code spells, if every piece is (the text of) exactly one word of the vocabulary -/
+def tokenise (f : List Char) : Option (List Tok) :=
+  let pm := Umya.Date.contains f "AM/PM".toList
+  let (ps, seps) := pieces f
+  let look (p : List Char) : Option (List Tok) :=
+    match (vocab pm).filter (fun w => codeText w == p) with
+    | [w] => some w
+    | _ => none
+  let rec go : List (List Char) → List Char → Option (List Tok)
+    | [p], [] => look p
+    | p :: ps, c :: cs => do
+      let w ← look p
+      let r ← go ps cs
+      pure (w ++ Tok.lit c :: r)
+    | _, _ => none
+  go ps seps
+
+def synReply (f : List Char) : String :=
+  match tokenise f with
+  | some toks => if simpleSyntax toks && codeText toks == f then s!"1 {toks.length}" else "0"
+  | none => "0"
 
 def dtStr (t : DateTime) : String :=
   s!"{t.year} {t.month} {t.day} {t.hour} {t.minute} {t.second}"
@@ -81,6 +116,10 @@ def handle (args : List String) : String :=
          | none => "unmodelled")
       else "unmodelled"
     | _, _ => "bad-op"
+  | ["syn", f] =>
+    match decodeStr f with
+    | some f => synReply f
+    | none => "bad-op"
   | ["bser", k0, n, secs] =>
     match k0.toNat?, n.toNat?, secs.toNat? with
     | some k0, some n, some secs => toString (batchDays k0 n secs).toNat
